@@ -8,6 +8,7 @@ import (
 	"fmt"
 	"hash/fnv"
 	"math/bits"
+	"strings"
 	"testing"
 	"time"
 
@@ -521,6 +522,11 @@ func TestVerifC18Round(t *testing.T) {
 	if env.Replay != "" {
 		var c c18Case
 		part, _ := env.ReplayData(&c)
+		if !strings.HasPrefix(part, "round-") && !strings.HasPrefix(part, "smoke-") {
+			// a replay file of the history unit: nothing to do here (the driver wants a part from every unit)
+			env.Emit(mc.NewResult("C18", "replay-not-for-this-unit", "enumeration"))
+			return
+		}
 		res := mc.NewResult("C18", part, "enumeration")
 		c18JudgeCase(res, part, &c.Cfg, &c.Round, res.Count, nil)
 		fmt.Printf("REPLAY part=%s config {%s} snapshot %+v\n", part, c.Cfg.String(), c.Round.Nodes)
